@@ -302,7 +302,7 @@ pub fn replay(path: &Path) -> i32 {
         },
     };
     let target = j.get("target_input").and_then(|x| x.u64()).unwrap_or(0) as usize;
-    let mut sh = shrink::Shrinker { evals: 0, budget: 1, target, log: vec![] };
+    let mut sh = shrink::Shrinker { deadline: f64::MAX, evals: 0, budget: 1, target, log: vec![] };
     match crate::scenario::execute(&sc) {
         Err(e) => {
             eprintln!("harness error during replay: {e}");
